@@ -582,7 +582,7 @@ def rule_r3(repo, tier='quick'):
             raise AnalysisError('parse(%r) forks into %d paths on a concrete string' % (text, len(res)))
         return res[0]
     subsets = ['', '@[0]', '@[1:]', '@[-1]', '@[::2]', '@[-3]', '@[1:5:2]', '@[:0]', '@[0:0]', '@[:]', '@[::]', '@[0:]', '@[::1]']
-    slices = ['', '[0]', '[3]', '[::]', '[1:]', '[:2]', '[1:5:2]', '[-2]', '[-1]', '[::-1]', '[-3:-1]', '[:0]', '[0:]', '[0:0]', '[2:0:-1]', '[0::1]']
+    slices = ['', '[0]', '[3]', '[::]', '[1:]', '[:2]', '[1:5:2]', '[-2]', '[-1]', '[::-1]', '[-3:-1]', '[:0]', '[0:]', '[0:0]', '[2:0:-1]', '[0::1]', '[1:2]', '[-1:0]', '[0:1]', '[-2:-1]']
     n = 0
     combos = []
     for bare in (True, False):
@@ -622,12 +622,150 @@ def rule_r3(repo, tier='quick'):
     rr.require_floor(1)
     return rr
 
+def ref_parse(text, bare=True):
+    """Reference parse of a path expression by the documented grammar (docs/internals.rst; appendix A.1 of DESIGN.md), with the
+    Python-style slice semantics the library documents.  Returns ('ok', (subset, [(sep, id, slice)])) or ('error', reason)."""
+    import re
+    t = ''.join(ch for ch in text if ch not in string.whitespace)
+    if not t:
+        return ('error', 'empty')
+
+    def slice_of(body, present):
+        if not present:
+            return slice(None, None, None) if bare else 0
+        if body == '':
+            return None
+        parts = body.split(':')
+        if len(parts) > 3:
+            return None
+        vals = []
+        for x in parts:
+            if x == '':
+                vals.append(None)
+            elif re.match(r'^-?[0-9]+$', x):
+                vals.append(int(x))
+            else:
+                return None
+        if len(parts) == 1:
+            k = vals[0]
+            if k is None:
+                return None
+            if k >= 0:
+                return k
+            return slice(k, k + 1 if k != -1 else None, None)
+        return slice(*vals)
+    pos = 0
+    subset_present = False
+    sub = slice(None, None, None)
+    if t[0] == '@':
+        m = re.match(r'^@\[([^\[\]]*)\]', t)
+        if not m:
+            return ('error', 'subset selector')
+        sub = slice_of(m.group(1), True)
+        if sub is None:
+            return ('error', 'subset slice')
+        pos = m.end()
+        subset_present = True
+        if pos >= len(t) or t[pos] not in '/>':
+            return ('error', 'subset selector must be followed by / or >')
+    elif not (t[0] in '/>' or t[0].isdigit() or t[0].isupper()):
+        return ('error', 'first character')
+    comps = []
+    first = True
+    while pos < len(t):
+        if t[pos] in '/.>':
+            sep = t[pos]
+            pos += 1
+        elif first and not subset_present:
+            sep = '>'
+        else:
+            return ('error', 'separator expected')
+        if first and sep == '.':
+            return ('error', 'attribute step first')
+        m = re.match(r'^([^@\[\]:/.>]+)(?:\[([^\[\]]*)\])?', t[pos:])
+        if not m:
+            return ('error', 'id expected')
+        sl = slice_of(m.group(2) if m.group(2) is not None else '', m.group(2) is not None)
+        if sl is None:
+            return ('error', 'slice')
+        comps.append((sep, m.group(1), sl))
+        pos += m.end()
+        first = False
+    if not comps:
+        return ('error', 'no component')
+    return ('ok', (sub, comps))
+
+
+def rule_r4(repo, tier='quick'):
+    """The whole parser folded on concrete strings - grammatical ones and near misses - for both settings of bare_id_matches_all,
+    against the reference parse: accepted exactly when grammatical, rejected with the path-parsing error and nothing else, and an
+    accepted string yields the subset selector, the components and the slices the grammar dictates."""
+    rr = RuleResult('C15.R4', 'whole parse of concrete strings against a reference parser: acceptance, error class, components and slices (both settings of bare_id_matches_all)')
+    parse = repo.own_method('NodePathParser', 'parse')
+
+    def skey(v):
+        if isinstance(v, Obj) and v.cls == 'slice':
+            return ('slice', v.fields['start'], v.fields['stop'], v.fields['step'])
+        if isinstance(v, slice):
+            return ('slice', v.start, v.stop, v.step)
+        return v
+    subs = ['', '@[0]', '@[-1]', '@[1:3]', '@[::2]']
+    comps = ['/001001', '/301011[0]', '/012101[-1]', '/012101[-2]', '/012101[1:2]', '/012101[-1:0]', '/012101[1:]', '/012101[:2]', '/012101[::2]', '/012101[::]',
+             '.A12101', '.033007[0]', '>004001', '>004001[1]', '/101002[5:6]']
+    good = []
+    for sb in subs:
+        for c1 in comps:
+            if c1[0] == '.':
+                continue
+            good.append(sb + c1)
+            for c2 in comps[::3] if tier != 'thorough' else comps:
+                good.append(sb + c1 + c2)
+    good += ['001001', '012101[1]', '301011/004001', ' / 301011 / 004001 [ 1 ] ', '@[ 0 ] / 001001', 'A12101', '/001001 . A01001', '301011>004001', '/001 001']
+    bad = ['', ' ', '@', '@[', '@[1', '@[1]', '@[1]001001', '@[]/001001', '@[a]/001001', '/001001[', '/001001[1', '/001001[1 2', '@[1 0', '0[1 2', '/001001[1:', '/001001[]',
+           '/001001[a]', '/001001[1:2:3:4]', '/001001]', '//001001', '/001001/', '/001001//004001', '.A01001', '/001001[1]2', '/001001[1][2]', '/001001[-]', '/001001[--1]',
+           '/001001[1-]', '/001001@[1]', '[1]', ':', '/', '>', '/001001.', '/001001>', '@[1:2:3:4]/001001', '/001001[1:2:3:]', 'abc', '/001001[1::2:]']
+    n = 0
+    for bare in (True, False):
+        for text in good + bad:
+            want = ref_parse(text, bare)
+            it = ConcreteParser(repo, 'NodePathParser')
+            res = it.run_function(parse, lambda: {'self': Obj('NodePathParser', {'bare_id_matches_all': bare}), 'path_expr': text}, self_class='NodePathParser')
+            if len(res) != 1:
+                raise AnalysisError('parse(%r) forks into %d paths on a concrete string' % (text, len(res)))
+            r = res[0]
+            n += 1
+            if want[0] == 'error':
+                if r.ok:
+                    rr.fail('whole-parse:accepts', parse.where, 'the string %r is not in the documented grammar (%s) and is accepted (bare_id_matches_all=%s)' % (text, want[1], bare),
+                            witness={'input': text})
+                elif r.exc.cls != 'PathExprParsingError':
+                    rr.fail('whole-parse:error-class', parse.where, 'the ungrammatical string %r is refused with %s, not with the path-parsing error (bare_id_matches_all=%s)' % (
+                        text, r.exc.cls, bare), witness={'input': text})
+                continue
+            if not r.ok:
+                rr.fail('whole-parse:rejects', parse.where, 'the grammatical string %r is refused with %s (bare_id_matches_all=%s)' % (text, r.exc.cls, bare), witness={'input': text})
+                continue
+            p = r.value
+            got_c = [(c.fields.get('separator'), c.fields.get('id'), skey(c.fields.get('slice'))) for c in p.fields.get('components', [])]
+            want_c = [(sep, ident, skey(sl)) for sep, ident, sl in want[1][1]]
+            if got_c != want_c:
+                rr.fail('whole-parse:components', parse.where, 'the string %r parses to the components %s; the grammar dictates %s (bare_id_matches_all=%s)' % (text, got_c, want_c, bare),
+                        witness={'input': text, 'bare_id_matches_all': bare})
+            elif bare and skey(p.fields.get('subset_slice')) != skey(want[1][0]):
+                rr.fail('whole-parse:subset', parse.where, 'the string %r selects the subsets %s; the grammar dictates %s' % (text, skey(p.fields.get('subset_slice')), skey(want[1][0])),
+                        witness={'input': text})
+    rr.instance('%d strings x 2 settings: %d grammatical, %d near misses' % ((len(good) + len(bad)), len(good), len(bad)))
+    rr.extra = {'strings': n}
+    rr.require_floor(1)
+    return rr
+
 
 def run(repo, check):
     r1 = rule_r1(repo, check.tier)
     check.add(r1)
     check.run_rule(rule_r2, repo)
     check.run_rule(rule_r3, repo, check.tier)
+    check.run_rule(rule_r4, repo, check.tier)
     check.coverage_extra = {
         'states': r1.extra['states'], 'transitions': r1.extra['transitions'], 'traces_validated_against_impl': 0,
         'samples': r1.extra['samples'] or [{'note': 'no product state sampled'}],
